@@ -31,9 +31,9 @@ func vH_C12_write_wvtt_alt_time() { vC12Write(vAsset_testpic_alt_seg_dur_stl(), 
 func vH_C12_write_stpp_alt_nr()   { vC12Write(vAsset_testpic_alt_seg_dur_stl(), "timestpp", 2) }
 
 var vSubsRec struct {
-	calls          int
-	nr, bmdt, dur  int
-	utcMS, cueDur  int
+	calls         int
+	nr, bmdt, dur int
+	utcMS, cueDur int
 }
 
 func vStubCreateSubsWvtt(nr uint32, baseMediaDecodeTime uint64, dur uint32, lang string, utcTimeMS uint64, timeSubsDurMS, region int) (*mp4.MediaSegment, error) {
